@@ -86,3 +86,37 @@ Theorem C15_free_releases_message_and_box :
     Some (n, strs, filter (fun r => negb (Nat.eqb p (fst r))) ((p, m) :: ress)).
 Proof. intros. cbn. rewrite Nat.eqb_refl. reflexivity. Qed.
 Print Assumptions C15_free_releases_message_and_box.
+
+(* ---------- the C wrappers themselves (CApi.v: c_api/mod.rs as a layer over the model) ---------- *)
+From UV Require Import CApi.
+
+(* a call handed a NULL parameter struct, a NULL required string or ill-formed UTF-8 answers its documented error
+   default, performs no network action and changes nothing, on disk or in the configuration *)
+Theorem C15_bad_argument_inert :
+  forall sha sigok zdec base (w : world) (c : ccall),
+    bad_arg c ->
+    let '(w', r, l) := cstep sha sigok zdec base w c in
+    w' = w /\ l = [] /\
+    r = match c with CInit _ _ _ => KBool false | CCheck _ _ => KBool false | _ => KResult (-1) true end.
+Proof. exact bad_argument_inert. Qed.
+Print Assumptions C15_bad_argument_inert.
+
+(* with proper arguments a wrapper IS the updater call (NULL channel = no channel) *)
+Theorem C15_wrappers_are_the_calls :
+  forall sha sigok zdec base (w : world) ch r dl,
+    cstep sha sigok zdec base w (CUpdateWithResult (match ch with Some s => CStr s | None => CNull end) r dl) =
+    (let '(w', o, l) := step sha sigok zdec base w (OUpdate ch r dl) in (w', out_of o, l)) /\
+    cstep sha sigok zdec base w (CCheck (match ch with Some s => CStr s | None => CNull end) r) =
+    (let '(w', o, l) := step sha sigok zdec base w (OCheck ch r) in (w', out_of o, l)).
+Proof. exact good_arguments_are_the_call. Qed.
+Print Assumptions C15_wrappers_are_the_calls.
+
+(* every result struct carries one of the five documented codes and a message; the free functions accept NULL *)
+Theorem C15_update_result_codes :
+  forall sha sigok zdec base (w : world) ch r dl,
+    match snd (fst (cstep sha sigok zdec base w (CUpdateWithResult ch r dl))) with
+    | KResult z m => m = true /\ (z = (-1) \/ z = 0 \/ z = 1 \/ z = 2 \/ z = 3)%Z
+    | _ => False
+    end.
+Proof. exact update_result_codes. Qed.
+Print Assumptions C15_update_result_codes.
